@@ -194,7 +194,12 @@ def _gen_prog(rng, cfg, counter_only, edge, handle_share=55):
             if tr:
                 code = rng.pick(tr)
         # the deadline forms: sometimes with `time_point::max()` ("no deadline") as the deadline
-        ops.append([code, h, rng.below(2)] if code in (TRYLOCK_UNTIL, TRYLOCK_SH_UNTIL) else [code, h])
+        if code in (TRYLOCK_UNTIL, TRYLOCK_SH_UNTIL):
+            ops.append([code, h, rng.below(2)])
+        elif code in (TRYLOCK_FOR, TRYLOCK_SH_FOR):
+            ops.append([code, h, rng.below(4)])     # the limit as 1ms / 900us / 250000ns / 0.9 (double) ms
+        else:
+            ops.append([code, h])
         st[h] = ('L' if code in BLOCKING else 'T') if en else 'D'
         sh[h] = want_s
         for _ in range(rng.weighted([(2, 0), (5, 1), (2, 2)])):
@@ -324,6 +329,13 @@ def gen(rng, tier, spec):
                     while len(op) < 3:
                         op.append(0)
                     op[2] = 1
+    if pid == 'C02' and rng.chance(1, 25):
+        # one thread keeps a shared handle while another takes and drops 60..130 shared handles in a row
+        n = rng.pick([63, 64, 65, 127, 128, 129, rng.range(60, 130)])
+        cfg = [SHARED, rng.pick([SHMUTEX, SHTIMED]), 1, init, 0]
+        acq = rng.pick([LOCK_SH, CONST_LOCK])
+        progs = [[[LOCK_SH, 0], [USE, 0, 0, 0, 0], [DESTROY, 0]], sum(([[acq, 1], [DESTROY, 1]] for _ in range(n)), [])]
+        return {'cfg': cfg, 'progs': progs, 'sched': [(0, 0), (0, 0)] + [(1, 0)] * rng.range(0, 40)}
     cw = ((14, 0), (3, 2))
     kind = rng.below(6)
     if rng.chance(1, 10):
@@ -637,6 +649,8 @@ def mon_reader_blocked(case, lines):
             continue
         op = cur[t][0]
         kind = 'S' if _shared_type_op(cfg, op) else 'X'
+        if kind == 'S' and available(cfg, op[0]) and k in (K['LOCK'], K['TRYLOCK'], K['TRYLOCK_FOR']):
+            return 'thread %d: the shared acquisition %s took the mutex exclusively (it waits for other readers; trace line %d)' % (t, op, i)
         if k in LOCK_KINDS:
             cur[t][2] = True
             ok = True if k in (K['LOCK'], K['LOCK_SH']) else bool(v)
@@ -857,6 +871,35 @@ def mon_exchange_returns_replaced(case, lines):
     return None
 
 
+def mon_timed_gave_up_early(case, lines):
+    """a timed acquisition with a positive limit reached the mutex with a limit <= 0 (it then gives up at once
+    although no time-out occurred; the instrumented mutex logs K_FAULT <mutex> 12)"""
+    for i, l in enumerate(lines):
+        if len(l) == 5 and l[1] == K['FAULT'] and l[3] == 12:
+            return 'thread %d: a positive time limit reached the mutex as a limit <= 0 (trace line %d)' % (l[0], i)
+    return None
+
+
+def mon_list_init_copy(case, lines):
+    """(C15) a copy of the wrapped object was made with braces and went through T's initializer_list constructor"""
+    for i, l in enumerate(lines):
+        if len(l) == 5 and l[1] == K['FAULT'] and l[3] == 13:
+            return 'thread %d: the payload was list-initialised from a payload instead of copied (trace line %d)' % (l[0], i)
+    return None
+
+
+ATOMIC_KINDS = (K['LOAD'], K['STORE'], K['RMW'], K['CAS_OK'], K['CAS_FAIL'], K['XCHG'])
+
+
+def mon_mo_weakened(case, lines):
+    """an atomic operation inside a wrapper operation is relaxed / consume: lock and unlock must synchronise
+    (acquire / release) for the lock discipline to imply race freedom (SC-for-DRF, Lockset.lockset_race_free)"""
+    for i, l in enumerate(lines):
+        if len(l) == 5 and l[0] >= 0 and (l[1] in ATOMIC_KINDS or l[1] - 100 in ATOMIC_KINDS) and l[4] in (0, 1):
+            return 'thread %d: atomic operation kind %d with memory order %d inside a wrapper operation (trace line %d)' % (l[0], l[1], l[4], i)
+    return None
+
+
 MONITORS = {
     'window_fault': mon_window_fault, 'lost_update': mon_lost_update, 'handle_truth': mon_handle_truth,
     'try_blocks': mon_try_blocks, 'release_balance': mon_release_balance, 'deadlock': mon_deadlock,
@@ -864,5 +907,6 @@ MONITORS = {
     'rw_overlap': mon_rw_overlap, 'reader_blocked': mon_reader_blocked,
     'linearizable': mon_linearizable, 'torn_load': mon_torn_load,
     'whole_object_op_unlocked': mon_whole_object_op_unlocked, 'unexpected_exception': mon_unexpected_exception,
+    'timed_gave_up_early': mon_timed_gave_up_early, 'list_init_copy': mon_list_init_copy, 'mo_weakened': mon_mo_weakened,
     'exchange_returns_replaced': mon_exchange_returns_replaced, 'timeout_overflow': mon_timeout_overflow, 'writer_lock_mode': mon_writer_lock_mode, 'assign_steals_source': mon_assign_steals_source, 'cas_truth': mon_cas_truth,
 }
